@@ -144,6 +144,10 @@ func runC18(ci interface{}, a *run.Acc) {
 			fail("file-left", desc+": Merge returned the closed error but left a file at the path")
 			return false
 		}
+		if m := env.refsLeaked(); m != "" {
+			fail("input-reference-leaked", desc+": "+m)
+			return false
+		}
 		a.Outcome("aborted")
 		return true
 	}
@@ -191,7 +195,7 @@ func init() {
 	run.Register(&run.Def{
 		ID:          "C18",
 		Level:       "fault_enumeration",
-		Rule:        "deviation enumeration of the cancellation point on the real Merge: the merge goroutine observes the close channel only at its polls, and between two harness-observable steps (a write reaching the StatsReporter passed to Merge, or a call into the vector-engine stand-in) it only does in-memory work that is discarded on abort, so closing at any real time is equivalent to closing right after the preceding observable step. For each input (the 6 text/synonym merges of C17, a 3-segment multi-field/doc-value merge; under the vectors tag 3 vector merges): the fault-free run is recorded (S observable steps), then one merge per closing point: closed before the call; closed inside step j for EVERY j in 1..S; never closed; and all of these again with an older, longer file already at the destination path. The order in which Merge runs its sections is a Go-map order: the plain flavours take whatever the runtime picks, and the instrumented flavours (range over package-level maps made deterministic at build time) repeat the whole enumeration under EVERY order of the sections (2 orders by default, 6 under the vectors tag). Oracle: pre-closed -> the closed error and no file; otherwise either success with a complete, correct file (footer, CRC, re-open, content == reference, renumbering maps) or the closed error with no file; never another error, never a file left behind on error, never success for an incomplete file; engine live-object count 0 afterwards. Non-trivial = one (input, closing step).",
+		Rule:        "deviation enumeration of the cancellation point on the real Merge: the merge goroutine observes the close channel only at its polls, and between two harness-observable steps (a write reaching the StatsReporter passed to Merge, or a call into the vector-engine stand-in) it only does in-memory work that is discarded on abort, so closing at any real time is equivalent to closing right after the preceding observable step. For each input (the 6 text/synonym merges of C17, a 3-segment multi-field/doc-value merge; under the vectors tag 3 vector merges): the fault-free run is recorded (S observable steps), then one merge per closing point: closed before the call; closed inside step j for EVERY j in 1..S; never closed; and all of these again with an older, longer file already at the destination path. The order in which Merge runs its sections is a Go-map order: the plain flavours take whatever the runtime picks, and the instrumented flavours (range over package-level maps made deterministic at build time) repeat the whole enumeration under EVERY order of the sections (2 orders by default, 6 under the vectors tag). Oracle: pre-closed -> the closed error and no file; otherwise either success with a complete, correct file (footer, CRC, re-open, content == reference, renumbering maps) or the closed error with no file; never another error, never a file left behind on error, never success for an incomplete file; engine live-object count 0 afterwards; every second input is an mmap-opened segment whose reference count must be what it was before the call. Non-trivial = one (input, closing step).",
 		Assumptions: []string{"equivalence argument above: cancellation is only observed at polls executed by the merge goroutine itself", "vector merges use the stand-in engine (DESIGN 3.4)"},
 		Bounds:      map[string]string{"quick": "every closing point of every input, both build tags, random section order + every section order", "thorough": "the quick inputs plus 239 more merges (every ordered pair of text menu items without and with deletions, every ordered pair of synonym menu items): every closing point, every section order"},
 		Flavours:    func(string) []string { return []string{"plain", "vec", "inst", "instvec"} },
